@@ -1,6 +1,7 @@
 package main
 
 import (
+	"github.com/yaricom/goNEAT/v4/experiment"
 	"fmt"
 	"context"
 	"math"
@@ -288,6 +289,12 @@ func opEpoch(g *G) (interface{}, []uint64, int, interface{}) {
 		sc.landscape = landscapes[g.intn(len(landscapes))]
 	}
 	assignFitness(g, sc.pop, sc.landscape)
+	if g.chance(0.4) {
+		// what every shipped evaluator does with the population it is handed: Generation.FillPopulationStatistics sorts
+		// each species' organism list in place, so the turnover starts from species lists in another order than
+		// Population.Organisms
+		(&experiment.Generation{}).FillPopulationStatistics(sc.pop)
+	}
 	before := dumpPop(sc.pop)
 	old := append([]*genetics.Organism{}, sc.pop.Organisms...)
 	// an executor object is REUSED across turnovers, populations and option sets most of the time (it must not keep
